@@ -918,7 +918,7 @@ def check_totality(pid, tier, seed, scratch, replay):
                 "TTML; every field-level mutation of a valid STL file (16 GSI fields x 5 value classes, 7 TTI fields x 7 classes, 5 sizes); "
                 "the lattice of public-type values with every optional part present/absent (metadata, maps nil/empty/definitions with "
                 "and without inline style, key != id, item / run inline style, style, region incl. detached ones, empty lines, STL "
-                "position, timestamp map) x 7 text classes (empty, leading combining mark, control characters, non-BMP, invalid UTF-8, "
+                "position, timestamp map) x 9 text classes (empty, leading combining mark also through decomposition or reordering, control characters, non-BMP, invalid UTF-8, "
                 "line terminators) - written by all 5 writers and passed through the list transformations. Exploration (labelled as "
                 "such): truncation at every offset, single-byte replace / insert / delete with 18 interesting bytes, splices, every "
                 "document through every reader, random junk, the extension-dispatching opener. Each call runs under recover() and a "
@@ -935,7 +935,7 @@ def check_totality(pid, tier, seed, scratch, replay):
             jobs.append((kind, K, p, parts, None))
     sparts = 16
     for p in (range(sparts) if thorough else [(seed + i * 5) % sparts for i in range(3)]):
-        jobs.append(("shapes", 6, p, sparts, None))
+        jobs.append(("shapes", 8, p, sparts, None))
 
     def run_gen(job):
         kind, k, p, parts, _ = job
